@@ -60,6 +60,8 @@ struct Script {
     limit_a: u64,
     limit_b: u64,
     cosine: bool,
+    /// tenant A has a second enabled API key (as during a key rotation): the start-up recount iterates keys
+    two_keys: bool,
     evs: Vec<Ev>,
 }
 const TENANTS: [&str; 2] = ["acme", "bolt"]; // sorted => tenant index = position
@@ -123,7 +125,15 @@ fn gen_script(r: &mut Rng, idx: usize) -> Script {
             25..=33 => Ev::Call(t, Op::BulkInsert((0..r.range(1, 4)).map(|_| gen_item(r, &pool)).collect())),
             34..=43 => Ev::Call(t, Op::BulkLoad((0..r.range(1, 4)).map(|_| gen_item(r, &pool)).collect())),
             44..=58 => Ev::Call(t, Op::Delete(gen_id(r, &pool))),
-            59..=67 => Ev::Call(t, Op::BatchDeleteIds((0..r.range(0, 4)).map(|_| if r.chance(1, 8) { 0 } else { gen_id(r, &pool) }).collect())),
+            59..=67 => {
+                if r.chance(1, 3) {
+                    // the same id twice, NOT adjacent (a `dedup` without a sort keeps both)
+                    let (x, y) = (gen_id(r, &pool), gen_id(r, &pool));
+                    Ev::Call(t, Op::BatchDeleteIds(if r.chance(1, 2) { vec![x, y, x] } else { vec![x, y, y.saturating_add(1), x] }))
+                } else {
+                    Ev::Call(t, Op::BatchDeleteIds((0..r.range(0, 4)).map(|_| if r.chance(1, 8) { 0 } else { gen_id(r, &pool) }).collect()))
+                }
+            }
             68..=73 => Ev::Call(
                 t,
                 Op::BatchDeleteFilter(match r.below(6) {
@@ -147,7 +157,7 @@ fn gen_script(r: &mut Rng, idx: usize) -> Script {
     }
     evs.push(Ev::Call(0, Op::Probe(PROBE_ID)));
     evs.push(Ev::Call(1, Op::Probe(PROBE_ID)));
-    Script { limit_a, limit_b, cosine, evs }
+    Script { limit_a, limit_b, cosine, two_keys: idx % 2 == 0, evs }
 }
 
 // ------------------------------------------------------------------------------------------ JSON (replays)
@@ -227,12 +237,13 @@ fn ev_from(v: &Value) -> Ev {
     Ev::Call(t, op)
 }
 fn script_json(s: &Script) -> Value {
-    json!({"limit_a": s.limit_a, "limit_b": s.limit_b, "cosine": s.cosine, "evs": s.evs.iter().map(ev_json).collect::<Vec<_>>()})
+    json!({"limit_a": s.limit_a, "limit_b": s.limit_b, "cosine": s.cosine, "two_keys": s.two_keys, "evs": s.evs.iter().map(ev_json).collect::<Vec<_>>()})
 }
 fn script_from(v: &Value) -> Script {
     Script {
         limit_a: v["limit_a"].as_u64().unwrap_or(2),
         limit_b: v["limit_b"].as_u64().unwrap_or(1_000_000),
+        two_keys: v["two_keys"].as_bool().unwrap_or(false),
         cosine: v["cosine"].as_bool().unwrap_or(false),
         evs: v["evs"].as_array().map(|a| a.iter().map(ev_from).collect()).unwrap_or_default(),
     }
@@ -303,6 +314,9 @@ fn usage_of(s: &Server, key: &str, tenant: &str) -> Result<u64, String> {
 fn server_opts(name: &str, sc: &Script) -> ServerOpts {
     let mut o = ServerOpts::new("C14", name);
     o.tenants = vec![TenantSpec::new(TENANTS[0]).max_vectors(sc.limit_a), TenantSpec::new(TENANTS[1]).max_vectors(sc.limit_b)];
+    if sc.two_keys {
+        o.tenants.push(TenantSpec::new(TENANTS[0]).max_vectors(sc.limit_a).key(&kvh_srv::make_key(TENANTS[0], 1)));
+    }
     if sc.cosine {
         o.distance = "cosine".into();
     }
